@@ -121,6 +121,14 @@ class Acc:
 def worker(args) -> dict:
     pid, tier, seed, k, jobs, n_examples, live, opts = args
     acc = Acc()
+    cov = None
+    if os.environ.get("VERIF_COV"):   # measurement aid for the generators (tools/sut_coverage.py); never set by a registered check
+        import coverage
+
+        os.makedirs(os.environ["VERIF_COV"], exist_ok=True)
+        cov = coverage.Coverage(data_file=os.path.join(os.environ["VERIF_COV"], f"cov.{pid}.{k}"), branch=True, config_file=False,
+                                include=[os.path.join(env.REPO, "openapi_python_client", "*")])
+        cov.start()
     try:
         mod = load_module(pid)
         if hasattr(mod, "configure"):
@@ -152,6 +160,9 @@ def worker(args) -> dict:
         if isinstance(e, KeyboardInterrupt):
             raise
         acc.harness_errors.append(f"shard {k}: " + "".join(traceback.format_exception(e))[-4000:])
+    if cov is not None:
+        cov.stop()
+        cov.save()
     return acc.to_dict()
 
 
